@@ -7,6 +7,7 @@ package c17
 
 import (
 	"fmt"
+	"runtime"
 	"sync"
 	"time"
 
@@ -49,6 +50,9 @@ type params struct {
 	// BigFirst: the first (large) message carries a precedence marker, so that it is transferred BEFORE the
 	// smaller ones (proposals go out by precedence, then size).
 	BigFirst bool `json:"big_first,omitempty"`
+	// OneProc: the case process runs with GOMAXPROCS(1) (a single-core board): reporting goroutines only get to run when
+	// the session goroutine blocks, so what they owe piles up between transfers.
+	OneProc bool `json:"one_proc,omitempty"`
 }
 
 var Check = &vrt.Check{
@@ -120,6 +124,12 @@ func plan(seed int64, tier string) []vrt.Case {
 	for rep := 0; rep < reps; rep++ {
 		cs = append(cs, vrt.Case{ID: fmt.Sprintf("txwindow-r%d", rep), Params: vrt.MustParams(params{Seed: seed, Index: 3000, DelayMS: 50, Size: 2600, NMsgs: 2, Modem: true, Rep: rep, TxWindowMS: 700, SlowAfter: 3000}), TimeoutS: 600})
 		cs = append(cs, vrt.Case{ID: fmt.Sprintf("bigfirst-r%d", rep), Params: vrt.MustParams(params{Seed: seed, Index: 3001, DelayMS: 50, Size: 3200, NMsgs: 3, Rep: rep, BigFirst: true}), TimeoutS: 600})
+	}
+	// a single-core machine, unpaced links, blocks of three messages
+	for i, sz := range []int{200, 3000, 20000} {
+		for rep := 0; rep < reps; rep++ {
+			cs = append(cs, vrt.Case{ID: fmt.Sprintf("oneproc%d-r%d", i, rep), Params: vrt.MustParams(params{Seed: seed, Index: 4000 + i, DelayMS: 0, Size: sz, NMsgs: 3, Modem: i == 1, Rep: rep, OneProc: true}), TimeoutS: 600})
+		}
 	}
 	// a display that is still busy with a periodic report when the exchange ends (paced, so that periodic reports happen)
 	for i, sz := range []int{2600, 5200} {
@@ -352,6 +362,10 @@ func attemptPair(c vrt.Case) (vrt.Obs, map[string]bool) {
 	vrt.Params(c, &p)
 	var o vrt.Obs
 	o.Evals = 1
+	if p.OneProc {
+		runtime.GOMAXPROCS(1) // this case has a process of its own
+		o.Count("scenarios_on_one_processor", 1)
+	}
 	rng := vrt.Rand(p.Seed, "c17", p.Index, p.Rep)
 	sc := &b2fx.Scenario{Policy: map[string]fbb.ProposalAnswer{}, Truth: map[string][]byte{}, MasterIsA: p.Rep%2 == 0}
 	mk := func(mid, from, to string, size int) (b2fx.MsgSpec, error) {
